@@ -509,6 +509,11 @@ impl System for ATwin {
                 bases.push(AEv::Send { confirmed: false, port: 1, len: 1, script: Script { rx1: Some(f.clone()), ..Default::default() } });
                 bases.push(AEv::Send { confirmed: false, port: 1, len: 1, script: Script { rx2: Some(f.clone()), ..Default::default() } });
             }
+            // the radio fails while the device closes a window (the n-th low_power() of the transaction): both twins hit
+            // the same fault, whatever was heard before it
+            for n in 0..4usize {
+                bases.push(AEv::Send { confirmed: false, port: 1, len: 1, script: Script { fault_low_power: Some(n), ..Default::default() } });
+            }
             if self.class_c {
                 let f = base_downlinks(&region);
                 bases.push(AEv::Send { confirmed: false, port: 1, len: 1, script: Script { rxc1: vec![f[0].clone()], ..Default::default() } });
@@ -531,6 +536,12 @@ impl System for ATwin {
                 for f in reject_candidates(&region, !joined) {
                     for &at in ats {
                         let inj = Inject { at, frame: f.clone() };
+                        // (an oversized frame in RX1 may end the procedure early, which removes later radio calls:
+                        // with a fault scheduled, frames are injected in RX2 only)
+                        let faulty = matches!(&base, AEv::Send { script, .. } if script.fault_low_power.is_some());
+                        if faulty && at != 2 {
+                            continue;
+                        }
                         if with_injection(&base, &inj).is_some() {
                             v.push(ATwinEv { base: base.clone(), inject: Some(inj) });
                         }
